@@ -1,4 +1,5 @@
-CONSTANTS MaxHist = 12
+CONSTANTS Streams = {"s1", "s2", "s3"}
+ MaxHist = 12
  EmitAt = 12
 INIT Init
 NEXT Next
